@@ -492,10 +492,19 @@ func (p *Parser) parseDict() (core.Object, error) {
 	return dict, nil
 }
 
-// skipWhitespace advances past PDF whitespace characters.
+// skipWhitespace advances past PDF whitespace characters and comments
+// (a comment runs from '%' to the end of the line and counts as whitespace).
 func (p *Parser) skipWhitespace() {
-	for p.pos < len(p.data) && isWhitespace(p.data[p.pos]) {
-		p.pos++
+	for p.pos < len(p.data) {
+		if c := p.data[p.pos]; c == '%' {
+			for p.pos < len(p.data) && p.data[p.pos] != '\r' && p.data[p.pos] != '\n' {
+				p.pos++
+			}
+		} else if isWhitespace(c) {
+			p.pos++
+		} else {
+			break
+		}
 	}
 }
 
